@@ -614,10 +614,14 @@ impl BigUint {
 			self.make_large();
 			match &mut self {
 				Large(v) => {
-					while rhs >= 64 {
-						v.insert(0, 0);
-						rhs -= 64;
-					}
+					// prepend all the zero limbs at once: inserting them one by one
+					// moved the whole vector each time, with no interrupt check
+					let limbs = rhs / 64;
+					v.try_reserve(limbs)
+						.map_err(|_| FendError::ValueTooLarge)?;
+					test_int(int)?;
+					v.splice(0..0, std::iter::repeat_n(0, limbs));
+					rhs %= 64;
 				}
 				Small(_) => unreachable!(),
 			}
@@ -631,6 +635,7 @@ impl BigUint {
 	pub(crate) fn rshift_n<I: Interrupt>(mut self, rhs: &Self, int: &I) -> FResult<Self> {
 		let rhs = rhs.try_as_usize(int)?;
 		for _ in 0..rhs {
+			test_int(int)?;
 			if self.is_zero() {
 				break;
 			}
